@@ -37,7 +37,15 @@ TNone == /\ l <= Len(Rec) /\ Ev.e = "none" /\ Ev.result = "None" /\ l' = l + 1
 \* must agree with the direct conversion, unless the disagreement is a listed finding
 KnownKeys == LET k == ndJsonDeserialize(IOEnv.KNOWN) IN {k[i].key : i \in 1..Len(k)}
 THelper == /\ l <= Len(Rec) /\ Ev.e = "helper" /\ (Ev.agree \/ Ev.key \in KnownKeys) /\ l' = l + 1
-Next == TDay \/ TFrac \/ TDur \/ TNone \/ THelper
+\* {"e":"mono","sys","lo_serial","hi_serial","lo":{ymd,t},"hi":{ymd,t}}: lo_serial <= hi_serial, so the
+\* conversion of the first is not later than the conversion of the second ("conversions are monotone")
+DateKey(r) == r.ymd[1] * 10000 + r.ymd[2] * 100 + r.ymd[3]
+TimeKey(r) == ((r.t[1] * 60 + r.t[2]) * 60 + r.t[3]) * 1000 + r.t[4]
+TMono == /\ l <= Len(Rec) /\ Ev.e = "mono"
+         /\ Len(Ev.lo.ymd) = 3 /\ Len(Ev.hi.ymd) = 3 /\ Len(Ev.lo.t) = 4 /\ Len(Ev.hi.t) = 4
+         /\ (DateKey(Ev.lo) < DateKey(Ev.hi) \/ (DateKey(Ev.lo) = DateKey(Ev.hi) /\ TimeKey(Ev.lo) <= TimeKey(Ev.hi))) = TRUE
+         /\ l' = l + 1
+Next == TDay \/ TFrac \/ TDur \/ TNone \/ THelper \/ TMono
 Spec == Init /\ [][Next]_l
 Accepted ==
   LET d == TLCGet("stats").diameter IN
